@@ -103,7 +103,7 @@ func optionSweep(lo, hi int) {
 	for k := lo; k < hi && run.Violations() < 4; k++ {
 		r := fw.NewRand(run.Seed, "C06", "opt", k)
 		v6 := r.Chance(1, 3)
-		mtu := []uint32{1500, 1280, 9000, 65535}[r.Intn(4)]
+		mtu := []uint32{1500, 1280, 9000, 65535, 65536}[r.Intn(5)] // 65536: the bundled loopback link's MTU
 		h, err := rawpeer.NewHost(mtu, true, "reno")
 		if err != nil {
 			run.Broken("harness: " + err.Error())
@@ -122,7 +122,7 @@ func optionSweep(lo, hi int) {
 		mss := []uint16{0, 536, 1460, 9000}[r.Intn(4)]
 		// packets at the 16-bit limit of the IPv4 total-length field: a link without a smaller
 		// MTU (loopback-like), a peer that accepts segments of any size, a write larger than one
-		big := mtu == 65535 && r.Bool()
+		big := mtu >= 65535 && r.Bool()
 		if big {
 			mss = 65535
 			run.Count("option_sweep_connections_with_maximum_sized_segments", 1)
@@ -543,7 +543,7 @@ func TestC06(t *testing.T) {
 	launch("nic", fw.N(400, 20000), 4)
 	launch("fd", fw.N(480, 24000), 4)
 	wg.Wait()
-	code := run.Finish("every frame emitted in three sweeps is decoded by the independent codec h/rfc (IPv4 version/IHL/total length/header checksum/TTL, IPv6 payload length, TCP data offset/checksum with pseudo-header/option grammar/padding/SYN-only options, UDP length/checksum, ICMPv4/ICMPv6 checksums, ARP sizes, differing IP identification on consecutive packets > 68 bytes of one flow) and its addressing compared with the socket / answered packet / first matching route. Sweeps: (1) two-stack TCP scenarios as in C01 (IPv4/IPv6, SACK, MTUs, faults, retransmissions), both links; (2) scripted-peer connections over all option combinations (timestamps x SACK x window scale x MSS, 1-5 out-of-order pieces => SACK blocks, every payload length class, FIN/RST); (3) stacks with 1-3 interfaces, PRNG-ordered overlapping route tables, UDP datagrams of boundary lengths to in- and off-subnet destinations over IPv4 and IPv6 (interface and source address compared with an independent first-match route lookup), echo requests to every interface address; (4) the fd-based Ethernet link over a socketpair (real time, pinned toolchain): the harness plays an on-link host and a gateway (IPv4 and IPv6), answers ARP requests / neighbour solicitations, injects echo requests, SYNs + data, refusals of active opens and announcements of changed MACs; every Ethernet frame read from the descriptor must carry the interface's MAC as source, a known EtherType matching its payload, the frame length implied by the IP length, and as destination the MAC most recently resolved for the next hop of an independent first-match route lookup (gateway if the entry has one; broadcast for ARP requests; the requester for ARP replies and neighbour advertisements). distinct = configuration classes; frames per kind are counted Later additions: On MTU 65535 links: MSS 65535 and writes larger than one segment while SACK blocks are attached (packets at the 16-bit total-length limit).",
+	code := run.Finish("every frame emitted in three sweeps is decoded by the independent codec h/rfc (IPv4 version/IHL/total length/header checksum/TTL, IPv6 payload length, TCP data offset/checksum with pseudo-header/option grammar/padding/SYN-only options, UDP length/checksum, ICMPv4/ICMPv6 checksums, ARP sizes, differing IP identification on consecutive packets > 68 bytes of one flow) and its addressing compared with the socket / answered packet / first matching route. Sweeps: (1) two-stack TCP scenarios as in C01 (IPv4/IPv6, SACK, MTUs, faults, retransmissions), both links; (2) scripted-peer connections over all option combinations (timestamps x SACK x window scale x MSS, 1-5 out-of-order pieces => SACK blocks, every payload length class, FIN/RST); (3) stacks with 1-3 interfaces, PRNG-ordered overlapping route tables, UDP datagrams of boundary lengths to in- and off-subnet destinations over IPv4 and IPv6 (interface and source address compared with an independent first-match route lookup), echo requests to every interface address; (4) the fd-based Ethernet link over a socketpair (real time, pinned toolchain): the harness plays an on-link host and a gateway (IPv4 and IPv6), answers ARP requests / neighbour solicitations, injects echo requests, SYNs + data, refusals of active opens and announcements of changed MACs; every Ethernet frame read from the descriptor must carry the interface's MAC as source, a known EtherType matching its payload, the frame length implied by the IP length, and as destination the MAC most recently resolved for the next hop of an independent first-match route lookup (gateway if the entry has one; broadcast for ARP requests; the requester for ARP replies and neighbour advertisements). distinct = configuration classes; frames per kind are counted Later additions: The option sweep also runs on links with the bundled loopback link's MTU, 65536. On MTU 65535 / 65536 (loopback) links: MSS 65535 and writes larger than one segment while SACK blocks are attached (packets at the 16-bit total-length limit).",
 		[]string{"transport checksums are demanded because the harness link does not declare checksum offload", "fd-based sweep: an expected frame not seen within 15 s of wall clock makes the run inconclusive, it is not judged here (C02/C11/C13 own delivery)"})
 	os.Exit(code)
 }
